@@ -12,6 +12,9 @@ REPLAYS = os.path.join(VERIF, 'replays')
 FINDINGS = os.path.join(VERIF, 'KNOWN_FINDINGS.jsonl')
 
 
+LAST = {'signatures': []}
+
+
 class Machinery(Exception):
     """the machinery failed (exit 2); never reported as a violation"""
 
@@ -90,6 +93,7 @@ class Run:
 
     def finish(self):
         wall = time.time() - self.t0
+        LAST['signatures'] = sorted({sig for sig, _, _ in self.violations})
         os.makedirs(EVID, exist_ok=True)
         cov = dict(self.cov)
         if not cov.get('samples'):
@@ -98,8 +102,9 @@ class Run:
               'coverage': jsonable(cov), 'assumptions': self.assumptions, 'wall_s': round(wall, 2),
               'violations': len(self.violations),
               'known_findings_hit': {k: v[0] for k, v in self.known_hits.items()}}
-        with open(os.path.join(EVID, self.prop + '.json'), 'w') as f:
-            json.dump(ev, f, indent=1, sort_keys=True)
+        if not os.environ.get('VERIF_REPLAYING'):       # a replay is not a coverage run
+            with open(os.path.join(EVID, self.prop + '.json'), 'w') as f:
+                json.dump(ev, f, indent=1, sort_keys=True)
         for sig, (n, fd) in self.known_hits.items():
             print('KNOWN-FINDING: property=%s %s (%d occurrences; signature %s)' % (self.prop, fd.get('what', ''), n, sig))
         if self.violations:
